@@ -329,8 +329,10 @@ class Gen:
             return self.struct_ty(0)
         if x < 88:
             return ("opt", self.scalar_ty(False) if r.chance(2, 3) else self.struct_ty(1))
-        # enum results are not generated here: writing an enum value in the JIT overruns the block's
-        # result object and corrupts neighbouring comptime data (finding C04-6; fixed probes below)
+        # enum results: finding C04-6 (JIT write past the block's result object) no longer reproduces since
+        # /repo 38e2441 (variant->enum tag stored as one byte), so they are generated again
+        if x < 94:
+            return self.enum_ty()
         self.sid += 1
         err = ("struct", self.sid, [("code", ("int", "i32")), ("sub", ("int", "u8"))])
         return ("eu", err, ("int", r.choice(["u64", "i32", "u16", "i64"])))
